@@ -182,7 +182,11 @@ def loading_case(rec, rng, cid, scratch):
         dd = {k: v.copy() for k, v in data.items()}
         if not has_tip:
             dd.pop("tip position")
-        meta = {"path": pathlib.Path("x.h5"), "enum": 99,
+        # (sometimes the curve claims to come from the same file as the
+        #  curve appended last)
+        same_file = bool(rng.integers(2))
+        meta = {"path": pathlib.Path(grp[-1].path) if same_file
+                else pathlib.Path("x.h5"), "enum": 99,
                 "imaging mode": "force-distance",
                 "point count": dd["force"].size}
         if has_k:
